@@ -214,3 +214,25 @@ Example C08_steps_agree_needs_premise :
   fB (exec_all (fs_of s) (bisync_steps (fun x => x) ex_dge cn Nat.leb s false)) !! 1%nat = Some [1]%Z /\
   tB (bisync_run (fun x => x) ex_dge cn Nat.leb s).1.1 !! 1%nat = Some [2]%Z.
 Proof. vm_compute. split; reflexivity. Qed.
+
+(** Evidence (a finite sweep, not a theorem) for the part of recovery left
+    unproved: a run WITH a both-changed conflict (path 1; A wins, the copy of B
+    goes to 101), a propagated delete (path 2) and a propagation (path 3), killed
+    at EVERY k = 0..23 of its 23 steps; one re-run from the recovered state reaches
+    the trees and the archive of the uninterrupted run (the exit status may
+    differ: a conflict already resolved before the crash is not counted again). *)
+Definition ex_c : @state nat _ _ (list Z) :=
+  {| tA := {[ 1%nat := [1]%Z ; 2%nat := [7]%Z ; 3%nat := [3]%Z ]};
+     tB := {[ 1%nat := [2]%Z ; 3%nat := [4]%Z ]};
+     arch := Some {[ 1%nat := [0]%Z ; 2%nat := [7]%Z ; 3%nat := [3]%Z ]} |}.
+
+Example C08_conflict_recovery_sweep :
+  length (bisync_steps (fun x => x) ex_dge ex_cname Nat.leb ex_c true) = 23%nat /\
+  show_state (bisync_run (fun x => x) ex_dge ex_cname Nat.leb ex_c).1.1 =
+    ([ (1%nat, [1]%Z); (3%nat, [4]%Z); (101%nat, [2]%Z) ], [ (1%nat, [1]%Z); (3%nat, [4]%Z); (101%nat, [2]%Z) ],
+     Some [ (1%nat, [1]%Z); (3%nat, [4]%Z); (101%nat, [2]%Z) ]) /\
+  forallb (fun k => bool_decide (
+      show_state (bisync_run (fun x => x) ex_dge ex_cname Nat.leb
+                    (recover (BisyncSteps.crash (fun x => x) ex_dge ex_cname Nat.leb ex_c true k))).1.1 =
+      show_state (bisync_run (fun x => x) ex_dge ex_cname Nat.leb ex_c).1.1)) (seq 0 24) = true.
+Proof. vm_compute. repeat split. Qed.
